@@ -22,6 +22,13 @@ where
     }
     let mut rhs_vector: Vec<f64> = rhs.iter().map(|x| (*x).into()).collect();
     let size = coeff_matrix.height;
+    if size == 0 {
+        // Nothing to solve for
+        return Err(SolverError::NumArgumentsMismatch {
+            num_rows: 0,
+            rhs_len: 0,
+        });
+    }
     let mut solution = vec![0.0; size];
     let mut error_flag = 0;
 
